@@ -79,7 +79,12 @@ def track_query(t, twin, acts):
             apply_track(other, a, k)
         except Exception:
             pass
-    if len(acts) % 2 == 1:
+    if len(acts) % 3 == 2 and other.bars and other.bars[-1].bar and not other.bars[-1].is_full():
+        # a track that differs from t only in the VALUE of its last entry (same beats, same notes before it)
+        last = other.bars[-1].bar[-1]
+        other.bars[-1].remove_last_entry()
+        other.bars[-1].place_notes(last[2], last[1] * 2)
+    elif len(acts) % 2 == 1:
         # a track that differs from t only by one more, empty, bar
         from mingus.containers import Bar as _Bar
         other.add_bar(_Bar())
